@@ -238,6 +238,9 @@ func runC07(c *Ctx) {
 	checkWorkersAccountedFor(c, "R19")
 	// R20 (shared with C02.R3): what is emitted is a prefix of the correct responses only if responses leave by order id
 	c.withOnlyKeys("R3", "R20", []string{"maybeSendPackets"}, func() { runC02(c) })
+	// R21 (shared with C01.R4): what a READ makes the server allocate and send is bounded by the configured maximum, not by the request
+	c.withOnly("R4", "R21", func() { runC01Server(c) })
+	checkShortInputIsReported(c, "R22")
 	// R13 (shared with C02.R0): a well-formed request of every type makePacket can build lands in a case of the os
 	// server's dispatcher that answers it; the default arm returns an error, which ends the command worker without a
 	// reply — with more requests in the stream Serve then waits for a worker that is gone
